@@ -68,3 +68,124 @@ Proof.
   cbn [assoc String.eqb Ascii.eqb Bool.eqb bind tyv_nums].
   rewrite Hs, He. cbn [bind int_view]. rewrite (valid_dims_prod _ _ _ Hv). reflexivity.
 Qed.
+
+Lemma py_index_0 {A} (a : A) r : py_index (a :: r) 0 = Ok a.
+Proof.
+  unfold py_index, lenZ. cbn [length]. change (0 <? 0) with false. cbv iota.
+  destruct ((0 <? 0) || (Z.of_nat (S (length r)) <=? 0)) eqn:E; [lia|]. reflexivity.
+Qed.
+Lemma py_index_1 {A} (a b : A) r : py_index (a :: b :: r) 1 = Ok b.
+Proof.
+  unfold py_index, lenZ. cbn [length]. change (1 <? 0) with false. cbv iota.
+  destruct ((1 <? 0) || (Z.of_nat (S (S (length r))) <=? 1)) eqn:E; [lia|]. reflexivity.
+Qed.
+Lemma py_index_2 {A} (a b c : A) r : py_index (a :: b :: c :: r) 2 = Ok c.
+Proof.
+  unfold py_index, lenZ. cbn [length]. change (2 <? 0) with false. cbv iota.
+  destruct ((2 <? 0) || (Z.of_nat (S (S (S (length r)))) <=? 2)) eqn:E; [lia|]. reflexivity.
+Qed.
+
+(* ---------- C06: Conv / pooling node types ---------- *)
+Lemma bind_conv2d ish w stride pad dil groups bias :
+  bind_args KConv2d [("input_shape", ish); ("weight", w); ("stride", stride); ("padding", pad);
+                     ("dilation", dil); ("groups", groups); ("bias", bias)] =
+  Ok [("input_shape", ish); ("weight", w); ("stride", stride); ("padding", pad);
+      ("dilation", dil); ("groups", groups); ("bias", bias); ("metadata", VDict [])].
+Proof. reflexivity. Qed.
+
+Lemma bind_conv1d ish w stride pad dil groups bias :
+  bind_args KConv1d [("input_shape", ish); ("weight", w); ("stride", stride); ("padding", pad);
+                     ("dilation", dil); ("groups", groups); ("bias", bias)] =
+  Ok [("input_shape", ish); ("weight", w); ("stride", stride); ("padding", pad);
+      ("dilation", dil); ("groups", groups); ("bias", bias); ("input_type", VNone);
+      ("output_type", VNone); ("metadata", VDict [])].
+Proof. reflexivity. Qed.
+
+(* Conv2d: declared input = (C_in; spatial input), declared output = (C_out; conv_out with the
+   kernel size OF EACH AXIS = weight.shape[2:]) *)
+Lemma conv2d_types dt tok wi (co ci k1 k2 : Z) ish pad dil stride groups bias sp out :
+  pad_is_bad_string pad = false -> seq_view ish = Some sp ->
+  conv_out (hp_of ish) (hp_of (pair_if_int pad)) (hp_of (pair_if_int dil)) (HSeq [k1; k2])
+           (hp_of (pair_if_int stride)) = Ok out ->
+  exists fs,
+    construct KConv2d [("input_shape", ish); ("weight", VArr dt [co; ci; k1; k2] tok wi);
+                       ("stride", stride); ("padding", pad); ("dilation", dil);
+                       ("groups", groups); ("bias", bias)] =
+    Ok (Leaf KConv2d fs (arr_ty "input" (ci :: sp)) (arr_ty "output" (co :: out))).
+Proof.
+  intros Hpad Hseq Hout. unfold construct. rewrite bind_conv2d. cbn [bind].
+  unfold post_init. cbn [fld assoc String.eqb Ascii.eqb Bool.eqb bind].
+  rewrite Hpad.
+  assert (Hnn : match ish with VNone => False | _ => True end).
+  { destruct ish; cbn in Hseq; try discriminate; exact I. }
+  destruct ish; try contradiction;
+    cbn [fld_shape fld assoc String.eqb Ascii.eqb Bool.eqb bind shape_attr];
+    rewrite py_index_1, py_index_0; cbn [bind];
+    rewrite Hseq; cbn [skipn] in *; rewrite Hout; cbn [bind]; eexists; reflexivity.
+Qed.
+
+Lemma conv1d_types dt tok wi (co ci k : Z) ish n pad dil stride groups bias out :
+  pad_is_bad_string pad = false -> ish <> VNone -> int_view ish = Some n ->
+  conv_out (HInt n) (hp_of pad) (hp_of dil) (HInt k) (hp_of stride) = Ok out ->
+  exists fs,
+    construct KConv1d [("input_shape", ish); ("weight", VArr dt [co; ci; k] tok wi);
+                       ("stride", stride); ("padding", pad); ("dilation", dil);
+                       ("groups", groups); ("bias", bias)] =
+    Ok (Leaf KConv1d fs (arr_ty "input" [ci; n]) (arr_ty "output" (co :: out))).
+Proof.
+  intros Hpad Hnn Hint Hout. unfold construct. rewrite bind_conv1d. cbn [bind].
+  unfold post_init. cbn [fld assoc String.eqb Ascii.eqb Bool.eqb bind].
+  rewrite Hpad.
+  destruct ish; try congruence;
+    cbn [fld_shape fld assoc String.eqb Ascii.eqb Bool.eqb bind shape_attr];
+    rewrite py_index_1, py_index_2, py_index_0; cbn [bind];
+    rewrite Hint; cbn [bind]; rewrite Hout; cbn [bind]; eexists; reflexivity.
+Qed.
+
+(* the per-axis content of conv_out for explicit pairs: one application of the formula per axis,
+   each with ITS OWN kernel size, stride, padding and dilation *)
+Lemma conv_out_pairs (n1 n2 p1 p2 d1 d2 k1 k2 s1 s2 : Z) :
+  s1 <> 0 -> s2 <> 0 ->
+  conv_out (HSeq [n1; n2]) (HSeq [p1; p2]) (HSeq [d1; d2]) (HSeq [k1; k2]) (HSeq [s1; s2]) =
+  Ok [conv_axis n1 p1 d1 k1 s1; conv_axis n2 p2 d2 k2 s2].
+Proof.
+  intros H1 H2. unfold conv_out. cbn [hp_ndim bind].
+  change (Z.to_nat (lenZ [n1; n2])) with 2%nat.
+  change (hp_is_str (HSeq [p1; p2]) "valid") with false. cbv iota.
+  cbn [conv_out_axes hp_is_str index_tuple].
+  change (0 + 1) with 1.
+  rewrite !py_index_0, !py_index_1. cbn [bind].
+  destruct (s1 =? 0) eqn:E1; [lia|]. destruct (s2 =? 0) eqn:E2; [lia|]. reflexivity.
+Qed.
+
+Lemma conv_out_scalar (n p d k s : Z) :
+  s <> 0 -> conv_out (HInt n) (HInt p) (HInt d) (HInt k) (HInt s) = Ok [conv_axis n p d k s].
+Proof.
+  intros H. unfold conv_out. cbn [hp_ndim bind]. change (Z.to_nat 1) with 1%nat.
+  change (hp_is_str (HInt p) "valid") with false. cbv iota.
+  cbn [conv_out_axes hp_is_str index_tuple bind].
+  destruct (s =? 0) eqn:E; [lia|]. reflexivity.
+Qed.
+
+(* pooling typed by inference: channel copied, dilation 1, the pool's own kernel/stride/padding *)
+Lemma pool_infer (k : kind) fs (c : Z) (sp out : list Z) (ks stride pad : pval) :
+  k = KSumPool2d \/ k = KAvgPool2d ->
+  fld "kernel_size" fs = Ok ks -> fld "stride" fs = Ok stride -> fld "padding" fs = Ok pad ->
+  conv_out (HArr sp) (hp_of pad) (HInt 1) (hp_of ks) (hp_of stride) = Ok out ->
+  derive_output k fs [("output", TArr (c :: sp))] [("input", TArr (c :: sp))] =
+  (fs, Some [("output", TArr (c :: out))], None).
+Proof.
+  intros Hk Hks Hst Hpad Hout.
+  assert (Hsl : py_slice (c :: sp) (Some 1) None = sp).
+  { unfold py_slice, slice_bound, lenZ. cbn [length].
+    change (1 <? 0) with false. cbv iota.
+    destruct (Z.of_nat (S (length sp)) <=? Z.min 1 (Z.of_nat (S (length sp)))) eqn:E.
+    - destruct sp; [reflexivity|cbn [length] in E; lia].
+    - replace (Z.min 1 (Z.of_nat (S (length sp)))) with 1 by lia.
+      change (Z.to_nat 1) with 1%nat. cbn [skipn].
+      apply firstn_all2. lia. }
+  destruct Hk; subst k; unfold derive_output, get_key, tyv_from, tyv_index;
+    cbn [assoc String.eqb Ascii.eqb Bool.eqb bind tyv_nums];
+    rewrite Hsl, Hpad, Hks, Hst; cbn [bind]; rewrite Hout; cbn [bind];
+    rewrite py_index_0; reflexivity.
+Qed.
